@@ -23,11 +23,23 @@ const flushNonce = uint64(0xF1F1F1F1F1F1F1F1)
 
 // waitLimit bounds every wait of the harness; reaching it is reported in the
 // observation (never silently).
-const waitLimit = 8 * time.Second
+var waitLimit = 8 * time.Second
+
+// noteTimeout shortens later waits once a few have expired, so that a tree on
+// which the peer hangs is reported in minutes rather than hours.
+var timeoutsSeen int
+
+func noteTimeout() {
+	timeoutsSeen++
+	if timeoutsSeen == 4 {
+		waitLimit = 500 * time.Millisecond
+		leakLimit = 500 * time.Millisecond
+	}
+}
 
 // leakLimit is how long goroutines of a disconnected peer get to finish before
 // they are reported as leaked.
-const leakLimit = 3 * time.Second
+var leakLimit = 3 * time.Second
 
 // ---------------------------------------------------------------- census
 
@@ -79,6 +91,7 @@ func waitCensusClean() bool {
 			for _, id := range ids {
 				leaked[id] = true
 			}
+			noteTimeout()
 			return false
 		}
 		time.Sleep(d)
@@ -171,6 +184,7 @@ func (rd *reader) waitFor(pred func([]wmsg) bool) string {
 			return "eof"
 		}
 		if time.Now().After(deadline) {
+			noteTimeout()
 			return "timeout"
 		}
 		rd.cond.Wait()
